@@ -94,6 +94,14 @@ CHECKS["C12"] = dict(
     ref="C12",
 )
 
+CHECKS["C07"] = dict(
+    technique="Coq layout algebra (Z arithmetic, all layouts) for the hand-computed positions, over offsets translated from every ErrorInfo(...) built with explicit line/column; tokenize oracle on every diagnostic of test/data and a layout corpus under CRLF/BOM/tab/non-ASCII/form-feed variants",
+    category="proof",
+    text="Partial. A fail-closed translator finds every diagnostic whose position is not copied from a node (FURB106, FURB113, FURB180) and regenerates their offsets; Lib/Layout.v + Props/C07 prove for all layouts that FURB106 reports where `replace` starts and that FURB180 reports the keyword exactly when `metaclass=X` is written without blanks on one line (the refuted full statement has two witnesses, recorded as open findings). That mypy's own node positions are token starts cannot be a theorem about refurb; it is decided by execution: every diagnostic on test/data and the layout corpus, in six layout variants, must name a checked file, an existing line, a column inside it, and a position where Python's tokenizer starts a token.",
+    note="Trusted: Coq kernel; the position-site translator; Python's tokenize; mypy node positions (execution only). Open: FURB180 with blanks around `=` or a split keyword.",
+    ref="C07",
+)
+
 NOT_APPLICABLE = {}
 
 
